@@ -412,6 +412,37 @@ def r19d(rep, F):
                 'base-class routine called with %s held' % mutex.replace('\\', ''))
 
 
+def r19e(rep, F):
+    rep.rule('R19e', 'an update of a std::atomic field that depends on its previous value is a single atomic '
+                     'read-modify-write (++, +=, fetch_*, exchange, compare_exchange): a store whose value expression reads '
+                     'the same atomic is a lost-update race that no race detector reports')
+    n = 0
+    seen = set()
+    for f in F.functions:
+        for x in f.walk():
+            tgt = rhs = None
+            if x['k'] == 'CXXOperatorCallExpr' and x.get('oop') == '=' and len(x['ch']) == 2:
+                tgt, rhs = x['ch'][0], x['ch'][1]
+            elif x['k'] == 'CXXMemberCallExpr' and x.get('callee', '').endswith('::store') and len(x['ch']) >= 2:
+                tgt, rhs = x['ch'][0], x['ch'][1]
+            if tgt is None:
+                continue
+            t = f.strip(tgt)
+            if t is None or t['k'] not in ('MemberExpr', 'DeclRefExpr') or 'atomic' not in (t.get('ty') or ''):
+                continue
+            key = (f.key, x['id'])
+            if key in seen:
+                continue
+            seen.add(key)
+            n += 1
+            tfp = f.fp(tgt)
+            reads = any(y['k'] in ('MemberExpr', 'DeclRefExpr') and f.fp(y['id']) == tfp for y in f.walk(rhs))
+            rep.add('R19e', f.name, 'atomic-store:%s#%d' % (t.get('name'), n), not reads, f.where(x),
+                    'the stored value reads %s itself: load and store are separate operations, concurrent updates are lost'
+                    % t.get('name') if reads else 'plain store of a value that does not depend on the atomic', nontrivial=reads)
+    rep.require_count('R19e', 'stores to atomic fields', n, 3)
+
+
 def run(rep):
     units = CORE_UNITS + SPACE_UNITS + MT_UNITS
     F = facts.load_units(units)
@@ -425,3 +456,4 @@ def run(rep):
     mt += [f for f in F.functions if f.record == 'ompl::base::PlannerTerminationCondition::PlannerTerminationConditionImpl']
     r19c(rep, F, mt)
     r19d(rep, F)
+    r19e(rep, F)
